@@ -224,8 +224,13 @@ def rule_N3(ctx):
         for k, v in want.items():
             ctx.ob("N3", cs[0] if cs else fn, f"{q}: generalized sample receives {k} = {v}", kw.get(k) == v, f"is {kw.get(k)}", inst=f"{q}:{k}")
     cb = ctx.fn("smpl_extract/generalized/sample.py", "combine_stereo", "N3")
-    ok = any(isinstance(a, ast.Assign) and norm(a) == f"result._export_name = {cb.args.args[2].arg}" for a in own_nodes(cb))
-    ctx.ob("N3", cb, "the merged stereo sample is exported under the common stem", ok, "", inst="combine_stereo-name")
+    from .sem import record_fields
+    nn = cb.args.args[2].arg
+    r_yes = record_fields(cb, lambda t: True if t == f"{nn} is not None" else (False if t == f"{nn} is None" else None))
+    if r_yes is None:
+        raise AnalysisError("N3", where(cb), "combine_stereo: how the result's fields are produced is not understood (unrecognised form)")
+    ok = r_yes[0].get("_export_name") == nn
+    ctx.ob("N3", cb, "the merged stereo sample is exported under the common stem", ok, "" if ok else f"_export_name = {r_yes[0].get('_export_name')}", inst="combine_stereo-name")
 
 
 # ------------------------------------------------------------------------ N4
